@@ -425,7 +425,7 @@ Section ULaid.
   Qed.
 
   Lemma local_go_laid flv slv l : forall es ns ls ats g cA c0 B st,
-    length ns = length ls -> length ns = length ats -> (length es <= length ns)%nat ->
+    length ns = length ls -> length ns = length ats ->
     Forall PeL es -> forallb frag_exp es = true ->
     chain W c0 (flat_map LS.m_exp es) B ->
     (forall l0, In l0 ls -> idok W l0 /\ hi W l0 <= c0) -> cA <= c0 ->
@@ -434,9 +434,9 @@ Section ULaid.
     clean_run true (fst (tr_stat (SLocal ns ls ats es l) flv slv g)) st = true /\
     EvoS W cA B (tvs st) (tvs (stack_run (fst (tr_stat (SLocal ns ls ats es l) flv slv g)) st)).
   Proof.
-    intros es ns ls ats g cA c0 B st Hl Ha Hle Hall Hf Hch Hp HcA Hil Hn Hg.
+    intros es ns ls ats g cA c0 B st Hl Ha Hall Hf Hch Hp HcA Hil Hn Hg.
     pose proof (chain_le W _ _ _ Hch) as HcB.
-    rewrite tr_stat_local, local_vis_thread, (local_visited_all es ns ls ats Hl Ha Hle).
+    rewrite tr_stat_local.
     pose proof (thread_exps_laid flv es g c0 B Hall Hf Hch) as P.
     destruct (thread (fun x g0 => tr_exp x None flv g0) es g) as [a1 g1]. cbn [fst] in *.
     destruct (P st Hn Hg) as [P1 P2].
@@ -622,7 +622,7 @@ Section ULaid.
       intros st Hn Hg.
       destruct (LL.local_marks_chain W ns ls es l c0 b C2) as (c1 & c2 & Lc1 & Lc2 & C3 & Hil).
       pose proof (chain_le W _ _ _ C3) as L3.
-      destruct (local_go_laid flv slv l es ns ls ats g c0 c1 c2 st ltac:(assumption) ltac:(assumption) ltac:(assumption)
+      destruct (local_go_laid flv slv l es ns ls ats g c0 c1 c2 st ltac:(assumption) ltac:(assumption)
                               IHe ltac:(assumption) C3) as [P1 P2]; auto.
       + intros l0 Hl0. destruct (chain_ids W _ _ _ C1 l0 Hl0) as [A1 [_ A3]]. split; [exact A1|lia].
       + assert (La1 : a <= c1) by lia. exact (G_sub W _ _ _ _ _ Hg La1 Lc2).
